@@ -40,6 +40,7 @@ from static_frame.core.util import full_for_fill
 from static_frame.core.util import GetItemKeyType
 from static_frame.core.util import GetItemKeyTypeCompound
 from static_frame.core.util import immutable_filter
+from static_frame.core.util import immutable_new
 from static_frame.core.util import INT_TYPES
 from static_frame.core.util import isna_array
 from static_frame.core.util import iterable_to_array_nd
@@ -855,8 +856,7 @@ class TypeBlocks(ContainerOperand):
 
         if self.unified:
             result = func(array=column_2d_filter(self._blocks[0]), axis=axis)
-            result.flags.writeable = False
-            return result
+            return immutable_new(result)
         else:
             if axis == 0:
                 # reduce all rows to 1d with column width
@@ -873,8 +873,7 @@ class TypeBlocks(ContainerOperand):
                         row_dtype=self._row_dtype,
                         row_multiple=True)
                 result = func(array=array, axis=axis)
-                result.flags.writeable = False
-                return result
+                return immutable_new(result)
 
             # this will be uninitialzied and thus, if a value is not assigned, will have garbage
             if dtypes:
